@@ -150,6 +150,7 @@ func (x *Ctx) Unit(c *Cfg) bool {
 func (x *Ctx) Run(in Input, c Cfg, choices map[int]int) *Res {
 	x.st.Evaluations++
 	x.st.PassEvals[x.pass.Name]++
+	atomic.AddUint64(&wdBeat, 1) // the wall budget is per execution of the real code
 	r := exec(in, c, choices)
 	for k, v := range r.Uncontrolled {
 		if x.st.Uncontrolled == nil {
@@ -332,7 +333,7 @@ func (x *Ctx) runPasses(passes []*Pass) {
 
 // ---- watchdog: per-unit wall budget and heap budget, enforced from a second goroutine
 
-var wdSeq uint64
+var wdSeq, wdBeat uint64
 var wdBudgetNs, wdHeap, wdDefBudgetNs, wdDefHeap int64
 var budgetScale = 1.0
 
@@ -365,6 +366,7 @@ func startWatchdog(x *Ctx, budget time.Duration, heapLimit uint64) {
 				last = 0
 				continue
 			}
+			s = s<<24 + atomic.LoadUint64(&wdBeat)
 			if s != last {
 				last, since = s, time.Now()
 			}
